@@ -313,7 +313,9 @@ impl std::io::Read for SchedReader {
         };
         let avail = self.data.len().saturating_sub(self.pos);
         let k = want.min(buf.len()).min(avail);
-        buf[..k].copy_from_slice(&self.data[self.pos..self.pos + k]);
+        if k > 0 {
+            buf[..k].copy_from_slice(&self.data[self.pos..self.pos + k]);
+        }
         self.pos += k;
         self.log.push((0, buf.len() as u64, k as u64));
         Ok(k)
